@@ -68,7 +68,6 @@ enum { OP_CFG = 0, OP_CREATE = 100, OP_CLEAR = 140, OP_CLRSUB = 150, OP_GAIN = 1
 struct Emit { bool ok; std::string addr, types; uint32_t u32; };
 
 static std::string fstr(double v) { char b[40]; snprintf(b, sizeof b, "%.9g", v); return b; }
-static std::string bits(float f) { uint32_t u; memcpy(&u, &f, 4); char b[12]; snprintf(b, sizeof b, "%08x", u); return b; }
 
 struct Sys {
     struct MSub { bool used = false; int port = 0, gain = 0, off = 0; };
@@ -238,18 +237,24 @@ struct Sys {
     static bool verify_fields(Inst &I, bool check, const char *site, const std::string &shape)
     {
         const rtosc::AutomationMgr &m = *I.m;
-        std::string exp, got; bool ok = true;
+        bool ok = m.learn_queue_len == (int)I.q.size();
+        int el[MS], ecc[MS], enr[MS], ncc[MS], nnr[MS];
         for(int s = 0; s < I.S; ++s) {
-            int el = -1; for(size_t k = 0; k < I.q.size(); ++k) if(I.q[k] == s) el = (int)k + 1;
-            int ecc = -1, ncc = 0; for(int c = 0; c < 3; ++c) if(I.ccmap[c] == s) { ecc = CCID[c]; ++ncc; }
-            int enr = -1, nnr = 0; for(int c = 0; c < 2; ++c) if(I.nrpnmap[c] == s) { enr = NRPN_ID[c][0] * 128 + NRPN_ID[c][1]; ++nnr; }
-            exp += "slot" + std::to_string(s) + "{learning=" + std::to_string(el) + " cc=" + (ncc > 1 ? "several" : std::to_string(ecc)) + " nrpn=" + (nnr > 1 ? "several" : std::to_string(enr)) + "} ";
-            got += "slot" + std::to_string(s) + "{learning=" + std::to_string(m.slots[s].learning) + " cc=" + std::to_string(m.slots[s].midi_cc) + " nrpn=" + std::to_string(m.slots[s].midi_nrpn) + "} ";
-            if(m.slots[s].learning != el || ncc > 1 || nnr > 1 || m.slots[s].midi_cc != ecc || m.slots[s].midi_nrpn != enr) ok = false;
+            el[s] = -1; for(size_t k = 0; k < I.q.size(); ++k) if(I.q[k] == s) el[s] = (int)k + 1;
+            ecc[s] = -1; ncc[s] = 0; for(int c = 0; c < 3; ++c) if(I.ccmap[c] == s) { ecc[s] = CCID[c]; ++ncc[s]; }
+            enr[s] = -1; nnr[s] = 0; for(int c = 0; c < 2; ++c) if(I.nrpnmap[c] == s) { enr[s] = NRPN_ID[c][0] * 128 + NRPN_ID[c][1]; ++nnr[s]; }
+            if(m.slots[s].learning != el[s] || ncc[s] > 1 || nnr[s] > 1 || m.slots[s].midi_cc != ecc[s] || m.slots[s].midi_nrpn != enr[s]) ok = false;
         }
-        exp += "queue_len=" + std::to_string(I.q.size()); got += "queue_len=" + std::to_string(m.learn_queue_len);
-        if(m.learn_queue_len != (int)I.q.size()) ok = false;
-        if(!ok) { bad(I, check, std::string("learn-state|") + site + "|" + shape, "after " + std::string(site) + ": object " + got + "; model " + exp); return false; }
+        if(!ok) {
+            std::string exp, got;
+            for(int s = 0; s < I.S; ++s) {
+                exp += "slot" + std::to_string(s) + "{learning=" + std::to_string(el[s]) + " cc=" + (ncc[s] > 1 ? "several" : std::to_string(ecc[s])) + " nrpn=" + (nnr[s] > 1 ? "several" : std::to_string(enr[s])) + "} ";
+                got += "slot" + std::to_string(s) + "{learning=" + std::to_string(m.slots[s].learning) + " cc=" + std::to_string(m.slots[s].midi_cc) + " nrpn=" + std::to_string(m.slots[s].midi_nrpn) + "} ";
+            }
+            exp += "queue_len=" + std::to_string(I.q.size()); got += "queue_len=" + std::to_string(m.learn_queue_len);
+            bad(I, check, std::string("learn-state|") + site + "|" + shape, "after " + std::string(site) + ": object " + got + "; model " + exp);
+            return false;
+        }
         for(int s = 0; s < I.S; ++s) for(int i = 0; i < I.P; ++i) {
             const rtosc::Automation &a = m.slots[s].automations[i];
             bool same = a.used == I.sub[s][i].used && (!a.used || std::string(a.param_path, strnlen(a.param_path, sizeof a.param_path)) == PORT[I.sub[s][i].port].path);
@@ -423,30 +428,34 @@ struct Sys {
     // Left out on purpose: slot.current_state (written by setSlot, read only by getSlot, which the harness calls
     // right after the write), slot.name, the NRPN scratch registers (the alphabet only sends complete sequences,
     // whose first two messages overwrite all four registers before any of them is decisive), impl/instance/p (pointers).
+    static void put(std::string &s, long v) { char b[24]; int n = snprintf(b, sizeof b, "%ld ", v); s.append(b, n); }
+    static void putf(std::string &s, float f) { uint32_t u; memcpy(&u, &f, 4); char b[12]; int n = snprintf(b, sizeof b, "%x ", u); s.append(b, n); }
     static std::string canon(const Inst &I)
     {
         if(!I.m) return "unconfigured";
+        if(I.diverged) return "DIVERGED (reported; never expanded)";
         const rtosc::AutomationMgr &m = *I.m;
-        std::string s = "cfg" + std::to_string(I.cfg) + " n=" + std::to_string(m.nslots) + "x" + std::to_string(m.per_slot) + " act=" + std::to_string(m.active_slot) +
-                        " qlen=" + std::to_string(m.learn_queue_len) + " dmg=" + std::to_string(m.damaged) + "\n";
+        std::string s; s.reserve(256 + 160 * I.S * I.P);
+        s += "cfg "; put(s, I.cfg); put(s, m.nslots); put(s, m.per_slot); put(s, m.active_slot); put(s, m.learn_queue_len); put(s, m.damaged);
         for(int i = 0; i < I.S; ++i) {
             const rtosc::AutomationSlot &sl = m.slots[i];
-            s += "S" + std::to_string(i) + " a" + std::to_string(sl.active) + " u" + std::to_string(sl.used) + " l" + std::to_string(sl.learning) + " cc" + std::to_string(sl.midi_cc) + " nr" + std::to_string(sl.midi_nrpn);
+            s += "\nS "; put(s, sl.active); put(s, sl.used); put(s, sl.learning); put(s, sl.midi_cc); put(s, sl.midi_nrpn);
             for(int j = 0; j < I.P; ++j) {
                 const rtosc::Automation &a = sl.automations[j];
-                s += " [" + std::to_string(a.used) + std::to_string(a.active) + std::to_string(a.relative) + " " + bits(a.param_base_value) + " '" + std::string(a.param_path, strnlen(a.param_path, sizeof a.param_path)) + "' t" +
-                     std::to_string((int)a.param_type) + " " + bits(a.param_min) + " " + bits(a.param_max) + " " + bits(a.param_step) + " sc" + std::to_string(a.map.control_scale) + " ty" + std::to_string(a.map.control_type) +
-                     " np" + std::to_string(a.map.npoints) + " up" + std::to_string(a.map.upoints) + " g" + bits(a.map.gain) + " o" + bits(a.map.offset);
-                if(a.map.upoints >= 2) for(int k = 0; k < 4; ++k) s += " " + bits(a.map.control_points[k]);
+                s += "["; put(s, a.used); put(s, a.active); put(s, a.relative); putf(s, a.param_base_value);
+                s += "'"; s.append(a.param_path, strnlen(a.param_path, sizeof a.param_path)); s += "' ";
+                put(s, a.param_type); putf(s, a.param_min); putf(s, a.param_max); putf(s, a.param_step);
+                put(s, a.map.control_scale); put(s, a.map.control_type); put(s, a.map.npoints); put(s, a.map.upoints); putf(s, a.map.gain); putf(s, a.map.offset);
+                if(a.map.upoints >= 2) for(int k = 0; k < 4; ++k) putf(s, a.map.control_points[k]);
                 s += "]";
             }
-            s += "\n";
         }
-        s += "model q=";
-        for(int x : I.q) s += std::to_string(x) + ",";
-        s += " cc=" + std::to_string(I.ccmap[0]) + "," + std::to_string(I.ccmap[1]) + "," + std::to_string(I.ccmap[2]) + " nrpn=" + std::to_string(I.nrpnmap[0]) + "," + std::to_string(I.nrpnmap[1]) + " subs=";
-        for(int i = 0; i < I.S; ++i) for(int j = 0; j < I.P; ++j) { const MSub &ms = I.sub[i][j]; s += ms.used ? std::to_string(ms.port) + std::to_string(ms.gain) + std::to_string(ms.off) + ";" : "-;"; }
-        if(I.diverged) s += " DIVERGED";
+        s += "\nmodel q=";
+        for(int x : I.q) put(s, x);
+        s += "cc="; for(int x : I.ccmap) put(s, x);
+        s += "nrpn="; for(int x : I.nrpnmap) put(s, x);
+        s += "subs=";
+        for(int i = 0; i < I.S; ++i) for(int j = 0; j < I.P; ++j) { const MSub &ms = I.sub[i][j]; if(ms.used) { put(s, ms.port); put(s, ms.gain); put(s, ms.off); } else s += "- "; }
         return s;
     }
 };
